@@ -1,4 +1,5 @@
 import Moclo.Proofs.Layout
+import Moclo.Proofs.CiteRoundTrip
 /-!
 # C10 — literature citations survive assembly with consistent numbering
 
@@ -73,9 +74,25 @@ theorem product_references (pre : Rec) :
 theorem inputs_citations_unchanged (v : Ent) (mods : List Ent) (pid pname : Nat) :
     (assemble v mods pid pname).2 = v.rcd :: mods.map (·.rcd) := assemble_inputs v mods pid pname
 
+/-- **the numbering can be read back**: dereferencing the product's citations against the product's own
+reference list (what the next assembly does first when the product is one of its inputs) succeeds and yields,
+entry by entry, the papers the source features cited — for any number of papers, cited any number of times -/
+theorem product_citations_read_back (pre : Rec) (h : ∀ f ∈ pre.feats, ∀ c ∈ f.cites, ∃ r, c = Cite.ref r) :
+    derefRec (rerefRec { pre with refs := [] }) =
+      some { pre with refs := (rerefRec { pre with refs := [] }).refs } := deref_reref pre h
+
+/-- … and this is the situation of the product of every successful assembly -/
+theorem product_citations_resolve {v : Ent} {mods : List Ent} {pid pname : Nat} {p : Product} {after : List Rec}
+    (h : assemble v mods pid pname = (.ok p, after)) :
+    ∃ pre : Rec, (∀ f ∈ pre.feats, ∀ c ∈ f.cites, ∃ r, c = Cite.ref r) ∧
+      p.rcd = rerefRec { pre with refs := [] } ∧ derefRec p.rcd = some { pre with refs := p.rcd.refs } :=
+  product_derefs h
+
 /-! non-vacuity: two features citing overlapping references -/
 def exPre : Rec := ⟨0, [], [⟨1, .user 0, [], [.ref 7, .ref 5]⟩, ⟨1, .user 1, [], [.ref 5, .ref 8]⟩], [9]⟩
 example : ((rerefRec { exPre with refs := [] }).refs, (rerefRec { exPre with refs := [] }).feats.map (·.cites))
     = ([7, 5, 8], [[.idx 1, .idx 2], [.idx 2, .idx 3]]) := by decide
+
+example : derefRec (rerefRec { exPre with refs := [] }) = some { exPre with refs := [7, 5, 8] } := by decide
 
 end Moclo.C10
